@@ -61,6 +61,8 @@ type InstSpec struct {
 	// LateCallbacks: OnPromote/OnDemote are not registered before Start but by a later
 	// "register" action (possibly in the middle of a term)
 	LateCallbacks bool `json:"late_callbacks,omitempty"`
+	// StartCtx: Start is given a cancellable context (ended by the "cancelstart" action)
+	StartCtx bool `json:"start_ctx,omitempty"`
 }
 
 // Action kinds:
